@@ -104,4 +104,10 @@ CHECKS["C03"] = {
     "text": "Worlds {v1 general, v1 dialog LLM path, v1 dialog custom-action path, v2 guardrails library} x rail exceptions on/off, each with an input rail, an output rail and (where applicable) a dialog action; 3-turn conversations, fault turn 1 or 2; generate returns normally, reply is refusal / rail exception / the fixed internal-error message and never the LLM text of that turn when a rail action failed, and in the next turn the input rail runs first on the new message and the output rail on the new LLM text.",
     "note": _E3_NOTE + " Faults only at action boundaries.",
 }
+CHECKS["C17"] = {
+    "engine": "E3-world", "level": "exploration",
+    "technique": "exhaustive enumeration of a hostile corpus x every LLM call position x every generation mode (pairs of positions and single-edit mutations in thorough) on a real LLMRails instance, with a well-formed follow-up turn",
+    "text": "66 hostile outputs (empty/blank, wrong prefixes, unbalanced quotes, Colang 1.0/2.x keywords and flows, Jinja template and variable syntax, 10^4 characters, non-ASCII, literals of unsupported types) at every LLM call position (including one past the normal call count) of the v1 modes general / three-step / single call / multi-step / passthrough and the v2 llm library flows (intent + continuation, value generation): generate never raises, returns an assistant or exception message with string content, `{{ 1234*5 }}` / `$user_message` / `{{ config }}` in LLM text are never evaluated; a well-formed second turn follows every hostile turn.",
+    "note": _E3_NOTE + " The corpus is finite and listed in vf/props/c17.py.",
+}
 NOT_APPLICABLE = {}
